@@ -33,6 +33,28 @@ func main() {
 			}
 		}
 		os.Exit(runCheck(os.Args[2], tier))
+	case "checkall":
+		// dev: every registered Cxx property against one load of the tree
+		tier := "quick"
+		for i, a := range os.Args {
+			if a == "--tier" && i+1 < len(os.Args) {
+				tier = os.Args[i+1]
+			}
+		}
+		var ids []string
+		for id := range props {
+			if len(id) == 3 && id[0] == 'C' {
+				ids = append(ids, id)
+			}
+		}
+		sort.Strings(ids)
+		rc := 0
+		for _, id := range ids {
+			if c := runCheck(id, tier); c > rc {
+				rc = c
+			}
+		}
+		os.Exit(rc)
 	case "list":
 		ids := []string{}
 		for id := range props {
